@@ -324,3 +324,65 @@ def tokenshape(repo, modules=None):
     res.samples = [str(res.detail)]
     res.analysed = [lr1.rel, "compiler/util/error.py"]
     return res
+
+
+# ---------------------------------------------------------------------------------------------------------
+# R-FOREIGNFILE: positions inside an object found through a reference are reported under that object's file
+_LOOKUPS = ("find_object", "find_object_or_none", "find_parent_object")
+_ERR_CTORS = ("error", "note", "warn")
+
+
+def foreignfile(repo):
+    """An object returned by ir_util.find_object* may live in another module.  A source location taken from it (or a
+    sub-expression of it handed to a checking function) must travel with the file name of *its* module
+    (`<canonical name>.module_file`), not with the enclosing function's own `source_file_name`: otherwise the
+    diagnostic names one file and carries line/column of another (and rendering it with source text raises
+    IndexError or shows an unrelated line)."""
+    res = RuleResult("R-FOREIGNFILE")
+    for m in repo.modules.values():
+        for f in m.funcs.values():
+            params = [a.arg for a in f.node.args.args]
+            local = {p for p in params if p in ("source_file_name", "file_name")}
+            foreign = set()
+            for n in walk_no_nested_funcs(f.node):
+                if isinstance(n, ast.Assign) and isinstance(n.value, ast.Call) \
+                        and (call_name(n.value) or "").split(".")[-1] in _LOOKUPS:
+                    foreign |= {t.id for t in n.targets if isinstance(t, ast.Name)}
+            if not foreign:
+                continue
+
+            def is_foreign(a):
+                root = a
+                while isinstance(root, (ast.Attribute, ast.Subscript)):
+                    root = root.value
+                return isinstance(root, ast.Name) and root.id in foreign and root is not a
+
+            for n in walk_no_nested_funcs(f.node):
+                if not isinstance(n, ast.Call) or not n.args:
+                    continue
+                cn = (call_name(n) or "")
+                last = cn.split(".")[-1]
+                if cn.startswith("error.") and last in _ERR_CTORS and len(n.args) >= 2:
+                    file_arg, node_arg = n.args[0], n.args[1]
+                elif len(n.args) >= 2 and is_foreign(n.args[0]) and last not in _LOOKUPS and not cn.startswith(("ir_util.", "ir_data_utils.")):
+                    node_arg = n.args[0]
+                    file_arg = next((a for a in n.args[1:] if (isinstance(a, ast.Name) and a.id in local)
+                                     or ast.unparse(a).endswith("module_file")), None)
+                    if file_arg is None:
+                        continue
+                else:
+                    continue
+                if not is_foreign(node_arg):
+                    continue
+                res.instances += 1
+                if isinstance(file_arg, ast.Name) and file_arg.id in local:
+                    res.add(f"{m.rel}|{f.qualname}|{ast.unparse(node_arg)}", f"{f.qualname} passes `{ast.unparse(node_arg)}` (part of an object "
+                            f"found through a reference, possibly defined in an imported module) together with its own "
+                            f"`{file_arg.id}`: diagnostics about it name the wrong file for their line and column",
+                            m.rel, n.lineno, f.qualname)
+                elif len(res.samples) < 4:
+                    res.samples.append(f"{f.qualname}: {ast.unparse(node_arg)} with {ast.unparse(file_arg)}")
+    if res.instances < 3:
+        raise AnalysisError(f"only {res.instances} foreign-object diagnostics found")
+    res.analysed = ["compiler/front_end/*.py"]
+    return res
